@@ -168,3 +168,13 @@ def register(claim):
           NOTE_COMMON + " Equality of status / quantities / price with a simulated exchange after arbitrary races and in-flight reordering is arithmetic over report "
           "values: NOT decided.",
           "DESIGN.md#c17")
+
+    claim("C20", "must-pass-through of schema.validate on every factory's CFG, def-use of the reported quantities against the assertions, who-writes of the id counters, structural agreement of the simulated acceptor with the engine",
+          "Static, every path of every factory (11 message factories + reply): the returned message has passed self.schema.validate under `if self.schema` and no tag is "
+          "written afterwards; in fix_exec_report_msg CumQty+LeavesQty<=OrderQty and finished=>LeavesQty==0 lie on every path over the very locals written to tags "
+          "14/151/38, with the finished set equal to the order's; ExecID is drawn once unconditionally from the sole +1 producer; OrderID is the order's own, else the "
+          "remembered, else a new remembered id; the acceptor is an AsyncFIXConnection with mirrored CompIDs and crosswise counters, fed FIFO through _process_message only, "
+          "with no session-type branching in the helper.",
+          NOTE_COMMON + " That every fabricated message validates for all argument combinations, is processed by the order object without error, and that a session "
+          "against the helper is frame-for-frame identical to one against a real acceptor endpoint needs execution: NOT decided.",
+          "DESIGN.md#c20")
